@@ -361,6 +361,7 @@ func C07(p *load.Prog, r *oblig.Run) {
 	// passes value and pointer through unchanged (C01's registry rule)
 	r.Rule("R01.c", "tag -> specialised kind registry agrees with the tag each kind's constructor hard-wires; value and pointer are passed through", 27)
 	c01Registry(p, r)
+	c01RegistryInvariant(p, r)
 	c07CopyWalksAll(p, r)
 	c07CopyThroughFilter(p, r)
 	c07Bookkeeping(p, r)
